@@ -37,7 +37,7 @@ def gen_config(rng: random.Random, pointer_choices=("uint16", "uint32", "uint64"
 def gen_swarm(rng: random.Random):
     """Per-run feature switches (swarm testing): each feature is on in roughly half the runs."""
     feats = ["wide", "float", "char", "wchar", "leb", "enum", "ptr", "array", "expr", "null", "nested", "union", "bits",
-             "anon", "multidim", "alias", "dynunion", "structarray", "typedef", "nocompile"]
+             "anon", "multidim", "alias", "dynunion", "structarray", "typedef", "nocompile", "anonenum"]
     on = {f: rng.random() < 0.55 for f in feats}
     on["eof"] = rng.random() < 0.15
     return on
@@ -101,8 +101,9 @@ class DefGen:
         return t, t
 
     def enum(self):
-        if self.enums and self.rng.random() < 0.5:
-            return self.rng.choice(self.enums)
+        named = [x for x in self.enums if x["name"] is not None]
+        if named and self.rng.random() < 0.5:
+            return self.rng.choice(named)
         rng = self.rng
         kind = rng.choice(["enum", "enum", "flag"])
         base = rng.choice(INT_PACKED + (INT_WIDE[:4] if self.sw["wide"] else []))
@@ -125,6 +126,10 @@ class DefGen:
             prev.append(nm)
         e = {"kind": kind, "name": self.uid("E"), "type": base, "members": members}
         self.enums.append(e)
+        if self.sw.get("anonenum") and rng.random() < 0.3 and not any(x["name"] is None for x in self.enums):
+            # an anonymous enum next to it: its members become constants of the cstruct object
+            self.enums.append({"kind": rng.choice(["enum", "flag"]), "name": None, "type": rng.choice(INT_PACKED[1:]),
+                               "members": [[self.uid("C"), None if rng.random() < 0.5 else str(rng.choice([1, 2, 4, 8]))] for _ in range(rng.randint(1, 3))]})
         return e
 
     def define(self):
@@ -371,6 +376,8 @@ def render_struct(sd):
 
 def render_enum(e):
     ms = ", ".join(m if v is None else f"{m} = {v}" for m, v in e["members"])
+    if e["name"] is None:
+        return f"{e['kind']} : {e['type']} {{ {ms} }};\n"
     return f"{e['kind']} {e['name']} : {e['type']} {{ {ms} }};\n"
 
 
@@ -559,7 +566,7 @@ def classify(defs, f):
             break
     t = CANON.get(t, t)
     for e in defs["enums"]:
-        if e["name"] == t:
+        if e["name"] is not None and e["name"] == t:
             return "enum", e
     for s in defs["structs"]:
         if s["name"] == t:
